@@ -471,6 +471,28 @@ def malformed(c, r, tmp):
     elif kind == "ragged-last":
         lines[-1] = lines[-1].split(",")[0]
         expect_nonzero = True
+    elif kind == "ragged-compensating":
+        # one row loses its last value and another gains one: the number of values still equals rows x columns of line 1
+        rnd = random.Random(int(c.get("dseed", 1)) * 7 + 5)
+        i, j = rnd.sample(range(1, len(lines)), 2)
+        moved = lines[i].split(",")[-1]
+        lines[i] = ",".join(lines[i].split(",")[:-1])
+        lines[j] += "," + moved
+        expect_nonzero = True
+    elif kind == "ragged-random":
+        # every row but the first draws its own length around the true one; totals may or may not agree
+        rnd = random.Random(int(c.get("dseed", 1)) * 11 + 3)
+        ncol = len(lines[0].split(","))
+        changed = False
+        for i in range(1, len(lines)):
+            n = max(1, ncol + rnd.choice([-1, 0, 0, 1]))
+            parts = lines[i].split(",")
+            parts = (parts + ["0.25"] * n)[:n]
+            changed = changed or n != ncol
+            lines[i] = ",".join(parts)
+        if not changed:
+            lines[-1] += ",0.25"
+        expect_nonzero = True
     elif kind == "ragged-junk-token":
         parts = lines[2].split(",")
         parts[0] = "abc"
